@@ -27,20 +27,33 @@ def extern_for(pkg):
     cm = cfront.cmodule(pkg)
 
     def ext(name, args, run, g):
-        cr = cfront.CRun(cm, hyps=run.hyps + run.assumptions, prefix=f"c{len(run.events)}")
+        cr = cfront.CRun(cm, hyps=run.hyps + run.assumptions, prefix=f"c{len(run.events)}", stop_on=SAFETY)
         conv = []
         for a in args:
             if isinstance(a, kern.Ptr):
                 conv.append(cfront.CPtr(a.arr, a.off, "char"))
             else:
                 conv.append(a)
-        res = cr.call(name, conv)
+        try:
+            res = cr.call(name, conv)
+        except cfront.Found as f:
+            run.events.append(kern.Event(f.event.kind, and_(g, f.event.cond), f.event.where))
+            run.assumptions.extend(cr.assumptions)
+            raise
         for e in cr.events:
             run.events.append(kern.Event(e.kind, and_(g, e.cond), e.where))
         run.assumptions.extend(cr.assumptions)
         run.c_stats = getattr(run, "c_stats", 0) + cr.stats["stmts"]
         return res
     return ext
+
+
+def guarded_call(run, fn, args):
+    """run the wrapper; a safety event already shown reachable ends the interpretation early (finish() decides on it)"""
+    try:
+        run.call(fn, args)
+    except cfront.Found:
+        pass
 
 
 def finish(name, run, hyps, funcs, bound, sig, witfn):
@@ -77,7 +90,7 @@ def ob_mutual_information(name, N, T, bins):
     hyps = [lo < hi] + [z3.And(x >= lo, x <= hi) for x in an.data] + [z3.Or(*[x == lo for x in an.data]), z3.Or(*[x == hi for x in an.data])]
     run = Run(mod, loop_bound=max(N, T, bins) + 1, extern=extern_for("climate"), hyps=hyps, split=False)
     scaling = 1 / (hi - lo)
-    run.call("mutual_information", [an, T, N, bins, scaling, lo])
+    guarded_call(run, "mutual_information", [an, T, N, bins, scaling, lo])
     funcs = [mod.func_info("mutual_information"), cm.func_info("_mutual_information")]
 
     def wit(m):
@@ -94,7 +107,7 @@ def ob_spearman(name, m, tmax):
     rk = sym_arr((m, tmax), "rk", "float32")
     hyps = [z3.Or(x == 0, x == 1) for x in mask.data]
     run = Run(mod, loop_bound=max(m, tmax) + 1, extern=extern_for("climate"), hyps=hyps, split=False)
-    run.call("spearman_corr", [m, tmax, mask, rk])
+    guarded_call(run, "spearman_corr", [m, tmax, mask, rk])
     funcs = [mod.func_info("spearman_corr"), cm.func_info("_spearman_corr")]
 
     def wit(mm):
@@ -109,9 +122,9 @@ def ob_ts_tests(name, fn, N, T, bins):
     hyps = []
     run = Run(mod, loop_bound=max(N, T, bins) + 1, extern=extern_for("timeseries"), hyps=hyps, split=False)
     if fn == "_test_pearson_correlation":
-        run.call(fn, [od, su, N, T])
+        guarded_call(run, fn, [od, su, N, T])
     else:
-        run.call(fn, [od, su, N, T, bins])
+        guarded_call(run, fn, [od, su, N, T, bins])
     funcs = [mod.func_info(fn), cm.func_info(fn + "_fast")]
 
     def wit(m):
@@ -129,10 +142,10 @@ def ob_current_flow(name, fn, N):
         i = z3.Int("i")
         hyps = [i >= 0, i < N]
         run.hyps = hyps
-        run.call(fn, [N, 1, 1, adm, R, i])
+        guarded_call(run, fn, [N, 1, 1, adm, R, i])
     else:
         hyps = []
-        run.call(fn, [N, 1, 1, adm, R])
+        guarded_call(run, fn, [N, 1, 1, adm, R])
     funcs = [mod.func_info(fn), cm.func_info(fn + "_fast")]
 
     def wit(m):
@@ -253,10 +266,28 @@ def replay(w):
     array) a second demonstration compares two runs on identical inputs followed by differently filled memory."""
     from .. import guard
     k = w["kind"]
+    w = dict(w)
+    for key in ("anomaly", "original", "surrogates"):
+        if key in w:
+            w[key] = np.array(core.to_float(w[key]), dtype=float).tolist()
     sig, out, rc = guard.run_guarded(CALLS[k].format(**{kk: vv for kk, vv in w.items()}))
     if sig in (11, 7):
         return True, (f"{w.get('event', '')}: compiled kernel killed by signal {sig} when its inputs end at an unmapped page "
                       f"({ {a: b for a, b in w.items() if a not in ('anomaly', 'original', 'surrogates')} })")
+    if k == "ts_test":
+        # a write a few bytes before a heap block is silent; push the samples of the witness that lie outside the range of the
+        # original data further out (same shapes, same ordering of all samples) so that the wild access leaves the mapped heap
+        f = core.to_float
+        od, su = np.array(f(w["original"]), dtype=float), np.array(f(w["surrogates"]), dtype=float)
+        lo, hi = od.min(), od.max()
+        rng_ = max(hi - lo, 1e-9)
+        su2 = np.where(su < lo, lo - (lo - su + rng_) * 1e7, np.where(su > hi, hi + (su - hi + rng_) * 1e7, su))
+        if not np.array_equal(su, su2):
+            w2 = dict(w, surrogates=su2.tolist(), original=od.tolist())
+            sig2, out2, rc2 = guard.run_guarded(CALLS[k].format(**w2))
+            if sig2 in (11, 7, 6):
+                return True, (f"{w.get('event', '')}: {w['fn']}(N={w['N']}, T={w['T']}) killed by signal {sig2} for original {od.tolist()} and "
+                              f"surrogates {su2.tolist()} (the witness' out-of-range samples {su.tolist()} pushed further out)")
     if k == "spearman":
         from pyunicorn.climate._ext import numerics as CL
         m, tmax = w["m"], w["tmax"]
